@@ -116,7 +116,7 @@ def inproc_cases(ctx, r):
         add(f"lsf {r.below(16)} {shex(gen_callsign(r, n))} {shex(gen_callsign(r, r.range(1, 9)))}", kind="lsf:length")
     add(f"lsf 5 {shex('.........')} {shex('.........')}", kind="lsf:max-value")
     add(f"lsf 5 {shex('A B C')} {shex('BROADCAST')}", kind="lsf:length")
-    for _ in range(300 if thorough else 60):
+    for _ in range(1500 if thorough else 60):
         add(f"lsf {r.below(16)} {shex(gen_callsign(r))} {shex(gen_callsign(r)) if r.chance(2, 3) else '-'}", kind="lsf:random")
     for _ in range(60 if thorough else 15):     # malformed stream: bytes outside the alphabet (value 0 in the C++); no spec
         s = bytes(r.choice([r.range(1, 255), r.range(97, 122)]) for _ in range(r.range(1, 9))).decode("latin-1")
@@ -126,25 +126,25 @@ def inproc_cases(ctx, r):
         add(f"data {fn} {hx(r.bytes(16))}", kind="data:edge-fn")
     add(f"data 0 {hx(bytes(16))}", kind="data:edge-fn")
     add(f"data 65535 {hx(FF * 16)}", kind="data:edge-fn")
-    for _ in range(400 if thorough else 80):
+    for _ in range(2000 if thorough else 80):
         add(f"data {r.below(65536)} {hx(r.bytes(16))}", kind="data:random")
     # make_lich_segment
     for n in range(6):
         add(f"lich {hx(r.bytes(5))} {n}", kind="lich:valid")
         add(f"lich {hx(bytes(5))} {n}", kind="lich:valid")
         add(f"lich {hx(FF * 5)} {n}", kind="lich:valid")
-    for _ in range(400 if thorough else 80):
+    for _ in range(2000 if thorough else 80):
         add(f"lich {hx(r.bytes(5))} {r.below(6)}", kind="lich:valid")
     for _ in range(40 if thorough else 10):
         add(f"lich {hx(r.bytes(5))} {r.range(6, 255)}", spec=False, kind="lich:number>5")
     # whole stream frames
-    for _ in range(300 if thorough else 60):
+    for _ in range(1500 if thorough else 60):
         fn = r.choice([r.below(65536), r.below(8), 0x7FFF, 0x8000 | r.below(0x8000)])
         add(f"frame {hx(r.bytes(30))} {r.below(6)} {fn} {hx(r.bytes(16))}", kind="frame")
     # BERT
     add(f"bert {hx(bytes(25))}", kind="bert")
     add(f"bert {hx(FF * 25)}", kind="bert")
-    for _ in range(200 if thorough else 40):
+    for _ in range(1000 if thorough else 40):
         add(f"bert {hx(r.bytes(25))}", kind="bert")
     return cases, has_spec
 
@@ -156,7 +156,7 @@ def process_cases(ctx, r, uninit_audio):
     lengths = [0, 1, 319, 320, 321, 6 * 320]
     for i, n in enumerate(lengths):
         cs.append(("b", r.below(16), gen_callsign(r), gen_callsign(r) if i % 2 else "", n, kinds[i % 3 + (0 if n else 0)]))
-    for _ in range(30 if thorough else 6):
+    for _ in range(120 if thorough else 6):
         cs.append(("b", r.below(16), gen_callsign(r), gen_callsign(r) if r.chance(1, 2) else "", r.range(2, 4000 if thorough else 2200), r.choice(kinds)))
     if thorough:
         for can in range(16):
@@ -168,7 +168,7 @@ def process_cases(ctx, r, uninit_audio):
           # a partial FIRST frame is padded from the uninitialised buffer (known finding): its symbols are not predictable
           ("B", r.below(16), gen_callsign(r), gen_callsign(r), r.range(321, 639) if uninit_audio else r.range(1, 319), "extreme")]
     if thorough:
-        for _ in range(12):
+        for _ in range(40):
             n = r.range(0, 2600)
             if uninit_audio and 0 < n < 320:
                 n += 320
